@@ -1286,6 +1286,36 @@ class Facts:
             self._cg = cg
         return self._cg
 
+    def closure_parents(self):
+        """closure / coroutine body name -> (parent body, operands captured, in upvar order)"""
+        if not hasattr(self, "_cp"):
+            cp = {}
+            for n, b in self.bodies.items():
+                for blk, i, st in b.assigns():
+                    rv = st["rv"]
+                    if rv["k"] == "agg" and rv.get("agg") in ("closure", "coroutine", "coroutine_closure"):
+                        name = strip_generics(rv["def"])
+                        if n.startswith("bin:"):
+                            name = "bin:" + name
+                        cp[name] = (b, rv.get("ops", []))
+            self._cp = cp
+        return self._cp
+
+    def deep_fields(self, body, op, depth=0, taint=True):
+        """field names an operand derives from, following captured variables of closures / async blocks into the body that created them"""
+        out = set()
+        for o in origins(body, op, taint=taint):
+            if o.kind in ("place", "param"):
+                out.update(p_[1:] for p_ in o.proj if p_.startswith(".") and not p_[1:].isdigit())
+                if o.what == 1 and o.proj and depth < 4:
+                    par = self.closure_parents().get(body.name)
+                    if par is not None:
+                        # upvar index: first numeric field projection
+                        idx = next((int(p_[1:]) for p_ in o.proj if p_.startswith(".") and p_[1:].isdigit()), None)
+                        if idx is not None and idx < len(par[1]):
+                            out |= self.deep_fields(par[0], par[1][idx], depth + 1, taint)
+        return out
+
     def callgraph_nodes(self):
         cg = self.callgraph()
         nodes = set(cg)
